@@ -428,7 +428,7 @@ def segment_reclaim_ob(prefix):
 
 
 def c15():
-    return reclaim_obs("C15") + [ar_ob("C15.suitable", "h_suitable", funcs=["mi_arena_id_is_suitable", "_mi_arena_memid_is_suitable"], cost=5, bounds="all id/request/exclusive combinations"),
+    return reclaim_obs("C15") + [o for o in heap_destroy_obs("C15") if o["id"].endswith(".heap_delete")] + [ar_ob("C15.suitable", "h_suitable", funcs=["mi_arena_id_is_suitable", "_mi_arena_memid_is_suitable"], cost=5, bounds="all id/request/exclusive combinations"),
             ] + [ar_ob("C15.arena_specific.req%d" % r, "h_arena_specific", defines=["REQ=%d" % r], replace={"mi_arena_try_alloc_at": "stub_try_alloc_at"}, cost=100,
                   funcs=["_mi_arena_alloc_aligned", "mi_arena_try_alloc", "mi_arena_try_alloc_at_id", "mi_arena_try_alloc_at", "mi_arena_id_is_suitable", "mi_arena_reserve"],
                   bounds="2 arenas x 8 blocks (each exclusive or not), request id %d (0 = none, 3 = unknown), any size up to the arena, any alignment" % r) for r in (0, 1, 2, 3)] + [
@@ -570,6 +570,7 @@ def c12():
     obs += page_obs("C12", [E_VISIT], sizes=((48, 4),), flavours=("release",), tier="thorough", timeout=1800)
     obs += page_obs("C12", [E_VISIT], sizes=((48, 3),), flavours=("debug",), tier="extended", timeout=3000)
     obs.append(abandoned_visit_ob("C12"))
+    obs += visit_areas_obs("C12") + queue_obs("C12", which=("absorb",))[1:3]
     for b in (1, 2, 6, 9, 13, 22, 33, 40, 43, 48):
         obs.append(O("C12.fast_divide.bin%02d" % b, "c16_arith.c", "h_fast_divide", defines=["BIN=%d" % b], funcs=["mi_get_fast_divisor", "mi_fast_divide"], cost=30,
                      bounds="real bin %d, all block offsets inside a page of up to 2^16 blocks" % b, timeout=600))
@@ -679,6 +680,10 @@ def c03():
                bounds="every size and power-of-two alignment"),
         api_ob("C03.realloc_aligned_at", "h_realloc_aligned", 2, funcs=REA_FUNCS, cost=90, defines=SMALLB,
                bounds="as C05.realloc_aligned_at (re-allocation keeps the alignment)"),
+        api_ob("C03.realloc_aligned", "h_realloc_aligned", 0, funcs=REA_FUNCS, cost=90, defines=SMALLB,
+               bounds="as C05.realloc_aligned (re-allocation without explicit offset keeps the alignment)"),
+        api_ob("C03.recalloc_aligned", "h_realloc_aligned", 4, funcs=REA_FUNCS, cost=90, defines=SMALLB,
+               bounds="as C05.recalloc_aligned"),
     ]
     obs += page_obs("C03", [E_USABLE, E_FREE], sizes=((48, 4),), flavours=("release",))
     obs += page_obs("C03", [E_USABLE], sizes=((48, 3),), flavours=("debug",), tier="extended", timeout=3000)
@@ -686,7 +691,7 @@ def c03():
         obs.append(O("C03.page_start.bin%02d" % b, "c16_arith.c", "h_page_start", defines=["BIN=%d" % b], funcs=["_mi_segment_page_start_from_slice"], cost=30,
                      bounds="real bin %d: page start is block-size aligned (natural alignment guarantee)" % b))
     obs += queue_obs("C03", which=("fullmoves",))
-    obs += huge_geometry_obs("C03")
+    obs += huge_geometry_obs("C03") + fresh_alloc_obs("C03")
     obs += [o for o in segment_alloc_full_obs("C03", flavours=("release",)) if ".al." in o["id"] and "arena_fail" not in o["id"]]
     return obs
 
@@ -761,6 +766,31 @@ def find_free_obs(prefix, psts=tuple(range(27))):
                 replace={"mi_page_extend_free": "stub_extend_free", "mi_page_fresh": "stub_page_fresh", "_mi_heap_collect_retired": "stub_collect_retired"},
                 funcs=["mi_find_free_page", "mi_page_queue_find_free_ex", "mi_page_to_full", "mi_page_queue_move_to_front", "mi_page_queue_enqueue_from_ex", "_mi_page_free_collect", "mi_heap_queue_first_update"],
                 bounds="size queue of 3 pages (64-byte class), page states (base 3: 0 full, 1 free block, 2 extendable) = %d; fresh page %s" % (pst, "granted" if fr else "refused")) for pst in psts for fr in ((1, 0) if pst == 0 else (1,))]
+
+
+def heap_collect_obs(prefix, combos=((0, 0, 1), (1, 2, 4), (0, 0, 3), (1, 5, 9), (2, 0, 5), (2, 2, 21), (1, 7, 26), (2, 7, 13), (1, 0, 0), (2, 0, 9), (0, 7, 13))):
+    us = ["mi_heap_queue_first_update.1:140", "mi_heap_queue_first_update.0:6", "_mi_memcpy_aligned.0:4", "mi_heap_visit_pages.0:8", "mi_heap_visit_pages.1:77", "_mi_page_thread_free_collect.0:4", "_mi_page_thread_free_collect.1:6"]
+    return [q_ob(prefix + ".heap_collect.m%d.a%d.s%02d" % (cm, af, pst), "h_heap_collect", defines=["AFULL=%d" % af, "BHAS=0", "CMODE=%d" % cm, "PST=%d" % pst], cost=20, unwindset=us, std_checks=False, unwind=10,
+                 replace={"_mi_heap_delayed_free_all": "stub_delayed_free_all2", "_mi_heap_collect_retired": "stub_collect_retired2", "_mi_ptr_segment": "stub_ptr_segment_q"},
+                 funcs=["mi_heap_collect_ex", "mi_heap_page_collect", "mi_heap_page_never_delayed_free", "mi_heap_visit_pages", "_mi_page_free_collect", "_mi_page_thread_free_collect", "_mi_page_free", "_mi_page_abandon", "mi_page_queue_remove", "mi_heap_queue_first_update"],
+                 bounds="3 pages (64-byte class), full-queue mask %s, page states %d (base 3: 0 freed locally, 1 live, 2 freed remotely), collect mode %s" % (bin(af), pst, ("normal", "force", "abandon")[cm]))
+            for (cm, af, pst) in combos]
+
+
+def fresh_alloc_obs(prefix):
+    return [q_ob(prefix + ".fresh_alloc.%s" % nm, "h_fresh_alloc", defines=["AFULL=0", "BHAS=0", "FRESH_KIND=%d" % k, "FRESH_BITS=28"] + (["LSIZE=%d" % ls] if ls else []), cost=30, std_checks=False, unwind=10,
+                 replace={"mi_page_extend_free": "stub_extend_free2", "_mi_ptr_segment": "stub_ptr_segment_f"},
+                 funcs=["mi_page_fresh", "mi_large_huge_page_alloc", "mi_page_fresh_alloc", "mi_page_init", "mi_page_queue_push", "mi_heap_queue_first_update"],
+                 bounds="%s; page area size symbolic under the segment layer's contract" % ("one page of the 64-byte class" if k == 0 else "huge: any size up to 2^28 above the large classes, or any size with an alignment 2^25..2^28" if k == 1 else "large block of %d bytes" % ls))
+            for (nm, k, ls) in (("small", 0, 0), ("huge", 1, 0), ("large200k", 2, 200 * 1024), ("large1m", 2, 1024 * 1024 + 8), ("large16m", 2, 16 * 1024 * 1024))]
+
+
+def visit_areas_obs(prefix):
+    us = ["mi_heap_queue_first_update.1:140", "mi_heap_queue_first_update.0:6", "_mi_memcpy_aligned.0:4", "mi_heap_visit_pages.0:8", "mi_heap_visit_pages.1:77"]
+    return [q_ob(prefix + ".visit_areas.a%d_b%d" % (af, bh), "h_visit_areas", defines=["AFULL=%d" % af, "BHAS=%d" % bh], cost=20, unwindset=us, std_checks=False,
+                 funcs=["mi_heap_visit_blocks", "mi_heap_visit_areas", "mi_heap_visit_areas_page", "mi_heap_area_visitor", "mi_heap_visit_pages", "_mi_heap_area_init"],
+                 bounds="heap with 3 pages (full-queue mask %s) next to another heap with pages (mask %s); visitor may stop after any call" % (bin(af), bin(bh)))
+            for (af, bh) in ((0, 3), (5, 1), (7, 2))]
 
 
 def heap_by_tag_ob(prefix):
@@ -852,7 +882,7 @@ E_FREE_DELAYED = ("h_free_delayed", ["_mi_free_delayed_block", "_mi_page_try_use
 
 
 def c08():
-    return lists_obs("C08") + page_obs("C08", [E_COLLECT, E_FREE_DELAYED], sizes=((32, 5),), flavours=("release",)) + queue_obs("C08") + [segment_reclaim_ob("C08")] + find_free_obs("C08", psts=(0, 2, 5, 6, 8, 18, 20, 24, 26))
+    return lists_obs("C08") + page_obs("C08", [E_COLLECT, E_FREE_DELAYED], sizes=((32, 5),), flavours=("release",)) + queue_obs("C08") + [segment_reclaim_ob("C08")] + find_free_obs("C08", psts=(0, 2, 5, 6, 8, 18, 20, 24, 26)) + heap_collect_obs("C08")
 
 
 PROPS["C08"] = dict(
